@@ -3,27 +3,42 @@
    The FULL statement "for every declared 2xx response x content type the handler's decode path delivers a value of
    the annotated type re-encoding to the body / None / the text / the bytes / the stream items" — on the decision
    model:  forall d, C05_holds d = true  — is FALSE: four classes of counterexample, C05_refuted_F05b,c,f,i (F05e, F05g, F05h are fixed: C05_fixed_F05e/g/h).
-   PARTIAL (what is proved, for every registry and every operation shape, no bound on sizes):
-     C05_partial                  primary response, single non-stream JSON content: delivers, given the heuristic agrees
-     C05_partial_class            the same with the heuristic hypotheses DISCHARGED for every generated class name
-     C05_partial_secondary        secondary 2xx with JSON content
-     C05_partial_nocontent(_2)    no content -> None (primary / secondary)
-     C05_partial_stream_bytes/_events   streaming primaries
-     C05_partial_decode           abstract decode layer: a delivering JSON path returns a typed, re-encodable value
-   NOT proved (stated in harness/manifest/C05.json): the single statement  c05_guard d = true -> C05_holds d = true
-   over the record [dcase] (needs the nth/find glue under unique response keys, the content-type switch and the
-   collapsed multi-content case); heuristic hypotheses for List[...]/X | None/aliases are checked per case by
-   vm_compute in the correspondence run, not proved in general. *)
-From PG Require Import Lib.Strs Model.Dispatch Model.Response Proofs.Response.
+   PARTIAL: C05_partial below is ONE theorem over the whole record [dcase] with an executable guard equal to the
+   conjunction of the open findings; the older region theorems (C05_partial_primary_json, _class, _secondary, …) are
+   kept as corollary-style statements with explicit hypotheses.  The decode layer (json.loads, cattrs) is abstract:
+   C05_partial_decode.  The converse (guard exactness) does not hold: C05_guard_not_exact. *)
+From PG Require Import Lib.Strs Model.Dispatch Model.Response Proofs.Response Proofs.ResponseMain.
 
-Theorem C05_partial : forall reg o r n e ct imported,
+(* THE single statement.  For every well-formed case — module (list of operations of any shape), operation, declared 2xx
+   response (numeric or the "2XX" range) and one of its content entries (or none) — : if the executable guard holds (the
+   conjunction of the open findings F05b, F05c, F05f, F05i) then the decode path the generated handler takes for that
+   status and Content-Type delivers what the declared response calls for (None / text / bytes / stream / a value of the
+   declared type, structured by structure_from_dict(response.json(), <declared type>) with the import present), and the
+   method's return annotation covers the declared type.  No bound on the number of operations, responses or entries. *)
+Theorem C05_partial : forall d, wf_dcase d = true -> c05_guard d = true -> C05_holds d = true.
+Proof. exact guard_implies_holds. Qed.
+Print Assumptions C05_partial.
+
+(* the guard is sufficient, not exact (structuring a JSON-native type is harmless): C05_guard_exact does NOT hold *)
+Theorem C05_guard_not_exact : wf_dcase d_not_exact = true /\ C05_holds d_not_exact = true /\ c05_guard d_not_exact = false.
+Proof. exact guard_not_exact. Qed.
+Print Assumptions C05_guard_not_exact.
+
+Theorem C05_partial_nonvacuous :
+  wf_dcase d_ok = true /\ c05_guard d_ok = true /\ wf_dcase d_ok2 = true /\ c05_guard d_ok2 = true
+  /\ wf_dcase d_switch = true /\ c05_guard d_switch = true /\ wf_dcase d_F05g = true /\ c05_guard d_F05g = true
+  /\ wf_dcase d_F05h_202 = true /\ c05_guard d_F05h_202 = true.
+Proof. exact main_nonvacuous. Qed.
+Print Assumptions C05_partial_nonvacuous.
+
+Theorem C05_partial_primary_json : forall reg o r n e ct imported,
   cprocessed o = Some (r, n) -> cr_content r = [e] -> is_stream r = false -> json_like (c_media e) = true ->
   str_eqb (show (c_type e)) s_None = false -> prefixb (s_Union ++ s_lb) (show (c_type e)) = false ->
   heuristic_ok reg (c_type e) = true ->
   (needs_structure (c_type e) = true -> deser_direct reg (c_type e) = true /\ imported = true) ->
   delivers imported (handle reg o n ct) (ideal true r (Some e)) = true.
 Proof. exact primary_single_json. Qed.
-Print Assumptions C05_partial.
+Print Assumptions C05_partial_primary_json.
 
 Theorem C05_class_type_ok : forall reg n,
   class_name_ok n = true -> class_entry_ok reg n = true ->
